@@ -20,6 +20,10 @@ pub struct Cfg {
     pub hash: HashKind,
     pub initcap: Option<usize>,
     pub ctor_new: bool,
+    /// kind=inject: one callback point in `irate` lets another logical thread take a map step
+    pub irate: u64,
+    pub iseed: u64,
+    pub ikeys: u64,
 }
 
 fn parse_opt<T: std::str::FromStr>(s: &str) -> Option<Option<T>> {
@@ -40,6 +44,9 @@ pub fn parse_cfg(line: &str) -> Option<Cfg> {
         hash: HashKind::Id,
         initcap: None,
         ctor_new: false,
+        irate: 3,
+        iseed: 1,
+        ikeys: 3,
     };
     let mut it = line.split_whitespace();
     if it.next()? != "cfg" {
@@ -56,6 +63,9 @@ pub fn parse_cfg(line: &str) -> Option<Cfg> {
             "hash" => c.hash = HashKind::parse(v)?,
             "initcap" => c.initcap = parse_opt(v)?,
             "ctor" => c.ctor_new = v == "new",
+            "irate" => c.irate = v.parse().ok()?,
+            "iseed" | "seed" => c.iseed = v.parse().unwrap_or(1),
+            "ikeys" => c.ikeys = v.parse().ok()?,
             _ => {}
         }
     }
@@ -300,7 +310,8 @@ pub fn build(cfg: &Cfg) -> Result<Live, String> {
             c.verif_set_clock(&clock);
             Ok(Live::Unsync(Box::new(c), clock))
         }
-        "sync" | "concs" => {
+        "sync" | "concs" | "inject" => {
+            let inject = cfg.kind == "inject";
             let mut b = SCache::<VKey, VVal>::builder();
             if let Some(c) = cfg.cap {
                 b = b.max_capacity(c);
@@ -308,7 +319,13 @@ pub fn build(cfg: &Cfg) -> Result<Live, String> {
             if let Some(i) = cfg.initcap {
                 b = b.initial_capacity(i);
             }
-            if wk != WeigherKind::None {
+            if inject {
+                // the weigher is a callback point inside maintenance (`handle_upsert`)
+                b = b.weigher(move |k: &VKey, v: &VVal| {
+                    inject_point();
+                    if wk == WeigherKind::None { 1 } else { wk.weigh(k.0, v.0) }
+                });
+            } else if wk != WeigherKind::None {
                 b = b.weigher(move |k: &VKey, v: &VVal| wk.weigh(k.0, v.0));
             }
             if let Some(t) = cfg.ttl {
@@ -319,6 +336,21 @@ pub fn build(cfg: &Cfg) -> Result<Live, String> {
             }
             let c = b.build_with_hasher(hasher);
             c.verif_set_clock(&clock);
+            if inject {
+                INJ.with(|i| {
+                    *i.borrow_mut() = Some(Inj {
+                        rng: Rng::new(cfg.iseed ^ 0x9e3779b97f4a7c15),
+                        rate: cfg.irate.max(1),
+                        nkeys: cfg.ikeys.max(1),
+                        in_maint: false,
+                        in_call: false,
+                        busy: false,
+                        out: Vec::new(),
+                        cache: c.clone(),
+                    })
+                });
+                INJECT_HOOK.with(|h| h.set(Some(injected_step)));
+            }
             Ok(Live::Sync(c, clock))
         }
         "sketch" => Ok(Live::Facade(crate::facade::Facade::Sketch(
@@ -487,6 +519,125 @@ fn exec_unsync<S: std::hash::BuildHasher + Clone>(c: &mut UCache<VKey, VVal, S>,
     }
 }
 
+/// kind=inject: while a maintenance run is in progress (`maint` / `sync`), at the callback
+/// points of the cache (the user's weigher inside `handle_upsert`, the hashing of a key before a
+/// map access) another logical thread (ids 10..) takes a map step: a sub-step interleaving that
+/// no scheduler is needed for. The steps taken are printed before the enclosing operation.
+struct Inj {
+    rng: Rng,
+    rate: u64,
+    nkeys: u64,
+    in_maint: bool,
+    /// reserved (injection during scripted map steps is not safe: see `pins`)
+    in_call: bool,
+    busy: bool,
+    out: Vec<String>,
+    cache: SCache<VKey, VVal, VBuildHasher>,
+}
+
+thread_local! {
+    static INJ: std::cell::RefCell<Option<Inj>> = const { std::cell::RefCell::new(None) };
+}
+
+fn injected_step() {
+    let act = INJ.with(|i| {
+        let mut b = match i.try_borrow_mut() {
+            Ok(b) => b,
+            Err(_) => return None,
+        };
+        match b.as_mut() {
+            Some(x) if x.in_maint && !x.busy => {
+                if x.rng.below(x.rate) != 0 {
+                    return None;
+                }
+                x.busy = true;
+                let t = 10 + x.rng.below(6);
+                let k = x.rng.below(x.nkeys);
+                let v = x.rng.below(12);
+                let kind = x.rng.below(4);
+                Some((x.cache.clone(), t, k, v, kind, x.in_call))
+            }
+            _ => None,
+        }
+    });
+    if let Some((c, t, k, v, kind, whole)) = act {
+        let mut lines = Vec::new();
+        if !holds(t) {
+            if kind == 0 {
+                let key = VKey::new(k);
+                match c.verif_invalidate_map(&key) {
+                    Some(p) => {
+                        HELD.with(|h| h.borrow_mut().push((t, Held::Write(p))));
+                        lines.push(format!("pinv {} {} -> held", t, k));
+                    }
+                    None => lines.push(format!("pinv {} {} -> none", t, k)),
+                }
+            } else {
+                let p = c.verif_insert_map(VKey::new(k), VVal::new(v));
+                HELD.with(|h| h.borrow_mut().push((t, Held::Write(p))));
+                lines.push(format!("pins {} {} {} -> ok", t, k, v));
+            }
+            if whole && holds(t) {
+                // no maintenance is in progress: the injected thread completes its call and runs a
+                // maintenance pass of its own before the scripted thread's map step goes on
+                let held = HELD.with(|h| {
+                    let mut h = h.borrow_mut();
+                    let i = h.iter().position(|(x, _)| *x == t).unwrap();
+                    h.remove(i).1
+                });
+                if let Held::Write(p) = held {
+                    match c.verif_enqueue_write(p) {
+                        Ok(()) => {
+                            lines.push(format!("penq {} -> ok", t));
+                            c.sync();
+                            lines.push("sync -> ok".to_string());
+                        }
+                        Err(p) => {
+                            HELD.with(|h| h.borrow_mut().push((t, Held::Write(p))));
+                            lines.push(format!("penq {} -> full", t));
+                        }
+                    }
+                }
+            }
+        }
+        INJ.with(|i| {
+            if let Some(x) = i.borrow_mut().as_mut() {
+                x.out.extend(lines);
+                x.busy = false;
+            }
+        });
+    }
+}
+
+#[allow(dead_code)]
+fn set_in_call(on: bool) {
+    INJ.with(|i| {
+        if let Some(x) = i.borrow_mut().as_mut() {
+            x.in_call = on;
+        }
+    });
+}
+
+fn set_in_maint(on: bool) {
+    INJ.with(|i| {
+        if let Some(x) = i.borrow_mut().as_mut() {
+            x.in_maint = on;
+        }
+    });
+}
+
+pub fn take_injected() -> Vec<String> {
+    INJ.with(|i| match i.borrow_mut().as_mut() {
+        Some(x) => std::mem::take(&mut x.out),
+        None => Vec::new(),
+    })
+}
+
+pub fn clear_inject() {
+    INJECT_HOOK.with(|h| h.set(None));
+    INJ.with(|i| *i.borrow_mut() = None);
+}
+
 /// What a logical thread holds between its map step and its enqueue (phase-split API).
 enum Held {
     Write(mini_moka::verif::PendingWrite<VKey, VVal>),
@@ -513,7 +664,10 @@ fn exec_sync<S: std::hash::BuildHasher + Clone + Send + Sync + 'static>(c: &SCac
         Some("pins") if ws.len() == 4 => {
             return match (num(1), num(2), num(3)) {
                 (Some(t), Some(k), Some(v)) if !holds(t) => {
-                    let p = c.verif_insert_map(VKey::new(k), VVal::new(v));
+                    let (key, val) = (VKey::new(k), VVal::new(v));
+                    // (no injection here: DashMap may re-hash stored keys under the shard lock while
+                    // it inserts, so the hash callback is not a lock-free point during a map step)
+                    let p = c.verif_insert_map(key, val);
                     HELD.with(|h| h.borrow_mut().push((t, Held::Write(p))));
                     "ok".into()
                 }
@@ -575,7 +729,15 @@ fn exec_sync<S: std::hash::BuildHasher + Clone + Send + Sync + 'static>(c: &SCac
             };
         }
         Some("maint") if ws.len() == 1 => {
+            set_in_maint(true);
             c.verif_maint();
+            set_in_maint(false);
+            return "ok".into();
+        }
+        Some("sync") if ws.len() == 1 => {
+            set_in_maint(true);
+            c.sync();
+            set_in_maint(false);
             return "ok".into();
         }
         _ => {}
@@ -725,6 +887,7 @@ pub fn run_file<R: BufRead, W: Write>(input: R, out: &mut W) {
         }
         if op.starts_with("cfg") {
             // drop the previous cache first (outside catch_unwind is fine)
+            clear_inject();
             clear_held();
             live = None;
             dead = false;
@@ -753,6 +916,7 @@ pub fn run_file<R: BufRead, W: Write>(input: R, out: &mut W) {
         if op == "drop" {
             // drop the last handle to the cache (operations may still be queued): every key
             // and value object must be released (what logical threads still hold goes first)
+            clear_inject();
             clear_held();
             live = None;
             dead = true;
@@ -811,6 +975,9 @@ pub fn run_file<R: BufRead, W: Write>(input: R, out: &mut W) {
                 }
             },
         };
+        for l in take_injected() {
+            writeln!(out, "{}", l).unwrap();
+        }
         writeln!(out, "{} -> {}", op, res).unwrap();
         if dead {
             // A cache that panicked mid-operation may be inconsistent: leak it rather
